@@ -40,4 +40,5 @@ def main():
     fh.close()
 
 
-main()
+if __name__ == '__main__':
+    main()
